@@ -540,13 +540,16 @@ fn main() {
         composite_case(&mut c, n);
     }
     // larger tables: more than 1024 / 4096 rows, every row boundary judged by the oracle
-    for n in if deep { vec![60usize, big, 4200] } else { vec![60usize, big] } {
+    // the second stream (real code compiled without debug assertions) repeats the small-file part in
+    // full and keeps one larger table per kind
+    let light = is_nodebug() && !deep;
+    for n in if deep { vec![60usize, big, 4200] } else if light { vec![60usize, 300] } else { vec![60usize, big] } {
         let rows = any_profile_rows(&mut c.rng, n);
         profile_case(&mut c, &rows);
         let rows: Vec<(u64, u32)> = (0..n).map(|_| (c.rng.next(), any_f32(&mut c.rng))).collect();
         metric_case(&mut c, &rows);
     }
-    for n in if deep { vec![60usize, big, 9000] } else { vec![60usize, 4200] } {
+    for n in if deep { vec![60usize, big, 9000] } else if light { vec![60usize, 300] } else { vec![60usize, 4200] } {
         let s = STREETS[1 + c.rng.below(3) as usize];
         let mut m = BTreeMap::new();
         while m.len() < n {
@@ -554,7 +557,7 @@ fn main() {
         }
         lookup_case(&mut c, &m);
     }
-    for (n, nfrom) in if deep { vec![(60usize, 4096u64), (big, 4096), (4200, 64), (9000, 64)] } else { vec![(60usize, 4096u64), (big, 4096), (4200, 64)] } {
+    for (n, nfrom) in if deep { vec![(60usize, 4096u64), (big, 4096), (4200, 64), (9000, 64)] } else if light { vec![(60usize, 4096u64), (1100, 64)] } else { vec![(60usize, 4096u64), (big, 4096), (4200, 64)] } {
         let s = [Street::Pref, Street::Flop, Street::Turn][c.rng.below(3) as usize];
         let m = any_decomp(&mut c.rng, s, n, nfrom);
         decomp_case(&mut c, m);
